@@ -158,7 +158,10 @@ def check(run):
                 ("commit", keys[6:], {"merge": False})]
         for cfg in ({"storage": "file", "mmap": True, "compound": False}, {"storage": "file", "mmap": False, "compound": True},
                     {"storage": "file", "copy_to_ram": True, "compound": False},
-                    {"storage": "file", "copy_to_ram": True, "compound": True}, {"storage": "ram", "compound": False}):
+                    {"storage": "file", "copy_to_ram": True, "compound": True}, {"storage": "ram", "compound": False},
+                    {"storage": "file", "compound": True, "frontend": "mp", "procs": 2, "batchsize": 2},
+                    {"storage": "file", "compound": True, "frontend": "mp", "procs": 3, "batchsize": 1, "multisegment": True},
+                    {"storage": "file", "compound": True, "frontend": "async"}):
             w = cworld.CWorld(cfg, variant=si)
             try:
                 try:
